@@ -682,6 +682,7 @@ func (se *SpecEnv) call(x *ast.CallExpr) (Val, error) {
 		if err != nil {
 			return Val{}, err
 		}
+		fc.chanFact(p, se.qvars)
 		switch name {
 		case "sent":
 			return Val{T: sel(fc.compAt(se.st, "CN.sent", arraySort("Int")), p.T), S: SInt, Typ: tInt}, nil
@@ -983,7 +984,7 @@ func mkQuant(kind, v, sort, rng, body string, pats []string) string {
 		for _, p := range good {
 			ps += " :pattern (" + p + ")"
 		}
-		inner = "(! " + inner + ps + " :qid " + smtIdent(v) + ")"
+		inner = "(! " + inner + ps + " :qid qid." + smtIdent(v) + ")"
 	}
 	return "(" + q + " ((" + v + " " + sort + ")) " + inner + ")"
 }
